@@ -219,7 +219,7 @@ func runConc(p *concParams, prefix []int, extra func(w *harness.World, cr *concR
 		}
 		db := w.DB
 		for _, f := range p.Faults {
-			w.Stor.Rules = append(w.Stor.Rules, &vstor.Rule{Kind: vstor.Kind(f.Kind), Types: storage.FileType(f.Type), Nth: f.Nth, Count: f.Count, Mode: vstor.Mode(f.Mode)})
+			w.Stor.Rules = append(w.Stor.Rules, &vstor.Rule{Kind: vstor.Kind(f.Kind), Types: storage.FileType(f.Type), Nth: f.Nth, Count: f.Count, Mode: vstor.Mode(f.Mode), FlipPos: f.Pos})
 		}
 		var wg vsync.WaitGroup
 		record := func(cid int, in linInput, call int64, out linOutput, what string) {
